@@ -191,19 +191,22 @@ theorem handleFrames_cids (s : St σ) (p : Pkt) (fs : List Frame.Parsed) : CidsM
     · exact h
     · exact h.trans (ih _)
 
+theorem decryptRest_cids (s : St σ) (p : Pkt) (d? : Option Dec) : CidsMono s (decryptRest P s p d?).1 := by
+  unfold decryptRest
+  have h2 := (getFullPn_frame s p).cids
+  split <;> (rename_i heq2; rw [heq2] at h2)
+  · exact h2
+  · repeat' split
+    all_goals first
+      | exact h2
+      | exact h2.trans (handleFrames_cids P _ p _)
+
 theorem decryptPacket_cids (s : St σ) (p : Pkt) : CidsMono s (decryptPacket P s p).1 := by
   unfold decryptPacket
   have h1 := (selectDecryptor_frame P s p).cids
   split <;> (rename_i heq; rw [heq] at h1)
   · exact h1
-  · rename_i s1 _
-    have h2 := (getFullPn_frame s1 p).cids
-    split <;> (rename_i heq2; rw [heq2] at h2)
-    · exact h1.trans h2
-    · repeat' split
-      all_goals first
-        | exact h1.trans h2
-        | exact (h1.trans h2).trans (handleFrames_cids P _ p _)
+  · exact h1.trans (decryptRest_cids P _ p _)
 
 theorem learnCids_cids (s : St σ) (p : Pkt) : CidsMono s (learnCids s p) := by
   unfold learnCids
@@ -260,6 +263,15 @@ theorem handleQuicPackets_esc (s : St σ) (ps : List Pkt) : (handleQuicPackets P
   | nil => rfl
   | cons p ps ih =>
     simp only [handleQuicPackets, escapes]
+    split
+    · rfl
+    · simp only [ih]
+
+theorem handleQuicPackets_caught (s : St σ) (ps : List Pkt) : (handleQuicPackets P s ps).2.1 = caughtList P s ps := by
+  induction ps generalizing s with
+  | nil => rfl
+  | cons p ps ih =>
+    simp only [handleQuicPackets, caughtList]
     split
     · rfl
     · simp only [ih]
